@@ -21,6 +21,7 @@ RULE = ("Constructive overlap: zig-zag / straight chains and stars over a two-le
         "atom twice, must not raise if none does, either otherwise; when it returns, the removed atoms are exactly the "
         "union of the deletion sets of one combination, each atom once, and bonds between surviving atoms still join "
         "the same atoms. Non-trivial = at least two found groups share an atom; distinct by hash.")
+RULE += (" Since rounds 9-10: After every call, refused or not, structure and both patterns are compared with snapshots taken before it.")
 ASSUMPTIONS = ["the exception message is not checked; other exception types are violations only if the model says the "
                "call must succeed", "identity of atoms via unique charge tags"]
 
